@@ -23,14 +23,24 @@ def fault_expected(sched):
     return (sched['request'] != 'valid' and not lenient(sched)) or sched['stage'] in FAULTING_STAGES
 
 
+def _with_trace(rec, tr):
+    import copy
+    r = copy.copy(rec)
+    r.trace = tr
+    return r
+
+
 def events_of(rec, tag):
     return [t.split(':', 1)[1] for t in rec.trace if t.startswith(tag + ':')]
 
 
-def check_events(sched, rec):
+def check_events(sched, rec, judge_unserialisable_exception_object=True):
     """C14: the specification automaton, written from the property text"""
     pr = []
     tr = rec.trace
+    if sched['stage'] == 'unserializable' and not judge_unserialisable_exception_object:
+        tr = [t for t in tr if not t.endswith(':method_exception_object')]
+        rec = _with_trace(rec, tr)
     wsgi = sched['transport'] != 'server'
     raiser = sched['level'] if 'listener' in sched['stage'] else None
     raise_event = None
@@ -66,6 +76,10 @@ def check_events(sched, rec):
         pr.append('method_return_object fired %d times (function returned normally: %s)' % (nro, returned_normally(sched)))
     neo = app.count('method_exception_object')
     want_fault = fault_expected(sched)
+    skip_eo = sched['stage'] == 'unserializable' and not judge_unserialisable_exception_object
+    if skip_eo:
+        # the missing method_exception_object of this schedule is a recorded finding judged by its own harness
+        neo = 1 if want_fault else 0
     if neo != (1 if want_fault else 0):
         pr.append('method_exception_object fired %d times (call ends in a fault: %s)' % (neo, want_fault))
     # matching document and string events, in that order
@@ -74,9 +88,9 @@ def check_events(sched, rec):
     tail = [e for e in app if e in tail_names]
     want_tail = ['method_exception_document', 'method_exception_string'] if want_fault else \
         ['method_return_document', 'method_return_string']
-    if tail != want_tail:
+    if tail != want_tail and not (skip_eo and not wsgi):
         pr.append('document/string events %r, expected %r' % (tail, want_tail))
-    if want_fault and neo == 1 and tail == want_tail:
+    if want_fault and neo == 1 and tail == want_tail and 'method_exception_object' in app:
         if app.index('method_exception_object') > app.index('method_exception_document'):
             pr.append('method_exception_document before method_exception_object')
     if not want_fault and nro == 1 and tail == want_tail:
@@ -95,8 +109,9 @@ def check_events(sched, rec):
         if b.count(ev) != exp:
             pr.append('listener B saw %s %d times, listener A %d times' % (ev, b.count(ev), app.count(ev)))
     # service-level (inherited) and method-level listeners see the method events of their method
-    if sched['request'] == 'valid':
+    if sched['request'] in ('valid', 'invalid_arg', 'wrong_kind') or lenient(sched):
         svc, meth = events_of(rec, 'svc'), events_of(rec, 'meth')
+        has_meth_mgr = sched['request'] != 'invalid_arg'        # only `work` carries a method-level manager
         for ev in P.METHOD_EVENTS:
             a = app.count(ev)
             hit = ev == raise_event
@@ -104,11 +119,11 @@ def check_events(sched, rec):
             ok_meth = {a - 1} if (hit and raiser == 'appA') else ({a, a - 1} if (hit and raiser == 'svc') else {a})
             if svc.count(ev) not in ok_svc:
                 pr.append('inherited service listener saw %s %d times, application listener %d' % (ev, svc.count(ev), a))
-            if meth.count(ev) not in ok_meth:
+            if has_meth_mgr and meth.count(ev) not in ok_meth:
                 pr.append('method listener saw %s %d times, application listener %d' % (ev, meth.count(ev), a))
     if any(t.startswith('svc2:') for t in tr):
         pr.append('listener of a sibling service fired')
-    if rec.escaped is not None and not (sched['stage'] == 'unserializable'):
+    if rec.escaped is not None and not (sched['stage'] == 'unserializable' and sched['transport'] == 'server'):
         pr.append('exception escaped the pipeline: %r' % (rec.escaped,))
     return pr
 
@@ -170,6 +185,9 @@ def check_hostile(sched, rec):
         code = resp[1] or ''
         if not (code == 'Client' or code.startswith('Client.')):
             pr.append('fault code %r is not in the Client family' % (code,))
+    if sched['request'] == 'too_long' and rec.start_response and P.out_of(sched['proto']) != 'soap11' \
+            and not rec.start_response[0][0].startswith('413'):
+        pr.append('HTTP status %r for a request longer than max_content_length' % (rec.start_response[0][0],))
     if rec.start_response and P.out_of(sched['proto']) != 'soap11':
         st = rec.start_response[0][0]
         if not st.startswith('4'):
